@@ -55,21 +55,27 @@ package lamport
 // behind a time this process has handed out or seen.
 //@ ghost var fileValue map[*PersistedClock]uint64
 // (Write renders the counter in decimal and replaces the file's content with it: assumed, go-billy's WriteFile)
+// (the two facts about fileValue are definitions of that ghost variable.) The body is verified for what it touches:
+// one write, of the clock's own file - the clocks directory must hold clock files only, every file in it is taken for a
+// clock when the clocks are listed (C06: no crash point may leave something there that is not a clock).
 //@ func (*PersistedClock).Write
-//@   trusted
-//@   modifies fileValue
-//@   ensures [written] result == nil ==> fileValue == update(old(fileValue), pc, pc.MemClock.counter)
-//@   ensures [error]   result != nil ==> fileValue == old(fileValue)
+//@   props C05 C06 C18
+//@   requires pc != nil
+//@   modifies fileValue, util.writes, util.lastWritten
+//@   opt trusted_frame
+//@   defines [written] result == nil ==> fileValue == update(old(fileValue), pc, pc.MemClock.counter)
+//@   defines [error]   result != nil ==> fileValue == old(fileValue)
+//@   ensures [writes-the-clock-file-and-nothing-else] util.writes == old(util.writes) + 1 && util.lastWritten == pc.filePath
 //@ func (*PersistedClock).Increment
 //@   props C05 C06
 //@   requires pc != nil && pc.MemClock != nil
-//@   modifies pc.MemClock.counter, fileValue
+//@   modifies pc.MemClock.counter, fileValue, util.writes, util.lastWritten
 //@   ensures [handed-out-is-persisted] result1 == nil ==> fileValue[pc] == pc.MemClock.counter && result == pc.MemClock.counter && result > old(pc.MemClock.counter)
 //@   ensures [monotone] pc.MemClock.counter >= old(pc.MemClock.counter)
 //@ func (*PersistedClock).Witness
 //@   props C05 C06
 //@   requires pc != nil && pc.MemClock != nil
-//@   modifies pc.MemClock.counter, fileValue
+//@   modifies pc.MemClock.counter, fileValue, util.writes, util.lastWritten
 //@   ensures [witnessed-is-persisted] result == nil ==> fileValue[pc] == pc.MemClock.counter && pc.MemClock.counter >= time
 //@   ensures [monotone] pc.MemClock.counter >= old(pc.MemClock.counter)
 
